@@ -172,7 +172,7 @@ def send_kinds():
     xm = {"ping": "wp", "lastseen": "last", "picture-get": "profilePicture", "picture-set": "profilePicture", "privacy-get": "privacy",
           "status-set": "status", "contact-sync": "sync", "media-upload": "wm"}
     for k in iqkinds.kinds():
-        n = k["name"]
+        n = k["base"]
         if n.startswith("group-"):
             d = {"tag": "iq", "cls": "groupsRequest", "xmlns": "wg2", "iqType": "set"}
         elif n == "status-set":
